@@ -4,13 +4,15 @@ package props
 //
 // Inputs
 //   pf <threads> <outcap> <incap> <ops> <close> <sched>      Processor under a forced schedule
+//   pg <threads> <outcap> <incap> <ops;ops;…> <collectors> <close> <sched>
+//                                                             the same with several producers / collectors
 //   pu <threads> <gomaxprocs> <outcap> <incap> <ops> <mode>  Processor free running
 //   mp <n> <threads> <maxchunk> <errAt>                       Map free running
 //   pp <mrl> <calls> <sched>                                  Promise under a forced schedule
 //
 // ops:    comma list of v<k> (returns k), e<k> (returns k and an error), x<k> (panics), "-" = none
-// sched:  one letter per step: digit = worker, p producer, c collector, s stopper, w waiter
-//         (Processor); a, b, c, … = the calls in order (Promise)
+// sched:  one letter per step: digit = worker, p (q r) producer, c (d e) collector, s stopper,
+//         w waiter (Processor); a, b, c, … = the calls in order (Promise)
 // calls:  F<k>|Fn Fulfill, X<v>.<e> Fail (n = nil), R<k>|Rn Recover, B Break, W Wait
 //
 // Every case runs in a child process (`harness c19child`, a line server), because a
@@ -110,31 +112,46 @@ func procLetter(point string) byte {
 	return '?'
 }
 
+// pf <threads> <outcap> <incap> <ops> <close> <sched>: one producer, one collector
 func c19RunPF(f []string) string {
+	return c19RunPG([]string{"pg", f[1], f[2], f[3], f[4], "1", f[5], f[6]})
+}
+
+// pg <threads> <outcap> <incap> <ops;ops;…> <collectors> <close> <sched>
+//
+// Producer p submits its operations in order with Process; producer 0 then waits for the other
+// producers and closes the queue (if asked).  Every collector calls Result until it sees the
+// result channel closed.  Schedule letters: digits = workers, p q r = producers, c d e =
+// collectors, s = Stop, w = Wait.
+func c19RunPG(f []string) string {
 	threads, outcap, incap := hx.Atoi(f[1]), hx.Atoi(f[2]), hx.Atoi(f[3])
-	ops := parseC19Ops(f[4])
-	wantClose := f[5] == "1"
-	if threads < 1 || threads > runtime.NumCPU() || threads > 9 {
+	var prods [][]c19op
+	for _, part := range strings.Split(f[4], ";") {
+		prods = append(prods, parseC19Ops(part))
+	}
+	np, nc := len(prods), hx.Atoi(f[5])
+	wantClose := f[6] == "1"
+	if threads < 1 || threads > runtime.NumCPU() || threads > 9 || np < 1 || np > 3 || nc < 1 || nc > 3 {
 		return "skip"
 	}
 	var sched []int
-	if f[6] != "-" {
-		for _, ch := range f[6] {
+	if f[7] != "-" {
+		for _, ch := range f[7] {
 			switch {
 			case ch >= '0' && ch <= '9':
 				sched = append(sched, int(ch-'0'))
-			case ch == 'p':
-				sched = append(sched, threads)
-			case ch == 'c':
-				sched = append(sched, threads+1)
+			case ch >= 'p' && ch <= 'r':
+				sched = append(sched, threads+int(ch-'p'))
+			case ch >= 'c' && ch <= 'e':
+				sched = append(sched, threads+np+int(ch-'c'))
 			case ch == 's':
-				sched = append(sched, threads+2)
+				sched = append(sched, threads+np+nc)
 			case ch == 'w':
-				sched = append(sched, threads+3)
+				sched = append(sched, threads+np+nc+1)
 			}
 		}
 	}
-	ctl := newController(threads + 4)
+	ctl := newController(threads + np + nc + 2)
 	curCtl = ctl
 	concurrent.VerifHook = ctl.hook
 	defer func() { concurrent.VerifHook = nil; curCtl = nil }()
@@ -146,35 +163,49 @@ func c19RunPF(f []string) string {
 	p := concurrent.NewProcessor(queue, outcap, threads)
 	setProcs(1)
 	var mu sync.Mutex
-	var res []string
-	closed, waited := false, false
-	ctl.spawn(threads, func(park func()) {
-		for _, o := range ops {
-			park()
-			p.Process(o)
-		}
-		if wantClose {
-			park()
-			p.Close()
-		}
-	})
-	ctl.spawn(threads+1, func(park func()) {
-		for {
-			park()
-			v, e := p.Result()
-			if v == nil && e == nil {
-				mu.Lock()
-				closed = true
-				mu.Unlock()
+	res := make([][]string, nc)
+	closed := make([]bool, nc)
+	waited := false
+	var others sync.WaitGroup // the producers other than producer 0
+	others.Add(np - 1)
+	for pi := 0; pi < np; pi++ {
+		pi := pi
+		ctl.spawn(threads+pi, func(park func()) {
+			for _, o := range prods[pi] {
+				park()
+				p.Process(o)
+			}
+			if pi != 0 {
+				others.Done()
 				return
 			}
-			mu.Lock()
-			res = append(res, showC19Result(v, e))
-			mu.Unlock()
-		}
-	})
-	ctl.spawn(threads+2, func(park func()) { park(); p.Stop() })
-	ctl.spawn(threads+3, func(park func()) {
+			if wantClose {
+				park()
+				others.Wait()
+				p.Close()
+			}
+		})
+	}
+	for ci := 0; ci < nc; ci++ {
+		ci := ci
+		ctl.spawn(threads+np+ci, func(park func()) {
+			for {
+				park()
+				v, e := p.Result()
+				if v == nil && e == nil {
+					mu.Lock()
+					closed[ci] = true
+					mu.Unlock()
+					return
+				}
+				mu.Lock()
+				res[ci] = append(res[ci], showC19Result(v, e))
+				mu.Unlock()
+			}
+		})
+	}
+	ctl.spawn(threads+np+nc, func(park func()) { park(); p.Stop() })
+	ctl.spawn(threads+np+nc+1, func(park func()) {
 		park()
 		p.Wait()
 		mu.Lock()
@@ -184,17 +215,22 @@ func c19RunPF(f []string) string {
 	if !ctl.quiesce() {
 		return "hang"
 	}
-	order := make([]int, 0, threads+3)
-	for i := 0; i < threads+2; i++ {
+	order := make([]int, 0, threads+np+nc+1)
+	for i := 0; i < threads+np+nc; i++ {
 		order = append(order, i)
 	}
-	order = append(order, threads+3)
+	order = append(order, threads+np+nc+1)
 	trace, ok := ctl.runSchedule(sched, order, procLetter)
 	if !ok {
 		return "hang"
 	}
 	mu.Lock()
-	obs := fmt.Sprintf("t=%s res=%s closed=%s wait=%s", strings.Join(trace, "/"), joinOrDash(res), hx.B(closed), hx.B(waited))
+	var rs, cs []string
+	for ci := 0; ci < nc; ci++ {
+		rs = append(rs, joinOrDash(res[ci]))
+		cs = append(cs, hx.B(closed[ci]))
+	}
+	obs := fmt.Sprintf("t=%s res=%s closed=%s wait=%s", strings.Join(trace, "/"), strings.Join(rs, ";"), strings.Join(cs, ""), hx.B(waited))
 	mu.Unlock()
 	// let go of what is still parked (the stopper); goroutines that are blocked stay blocked
 	ctl.finish()
@@ -466,6 +502,8 @@ func c19Child(args []string) int {
 		switch f[0] {
 		case "pf":
 			obs = c19RunPF(f)
+		case "pg":
+			obs = c19RunPG(f)
 		case "pu":
 			obs = c19RunPU(f)
 		case "mp":
@@ -684,6 +722,18 @@ func c19Gen(g *hx.Gen) {
 			return !g.Done()
 		})
 	}
+	// two collectors (and two producers), no or one operation: every ordering of the close, the
+	// workers' start/exit steps and the collectors' receives
+	multisetPerms([]byte{'p', '0', '1', 'c', 'd'}, []int{1, 2, 2, 1, 1}, func(s string) bool {
+		g.Casef("pg 2 0 1 - 2 1 %s", s)
+		return !g.Done()
+	})
+	multisetPerms([]byte{'p', 'q', '0', 'c', 'd'}, []int{1, 1, 4, 2, 2}, func(s string) bool {
+		if (g.Thorough() && g.Chance(0.3)) || g.Chance(0.03) {
+			g.Casef("pg 1 0 1 -;v1 2 1 %s", s)
+		}
+		return !g.Done()
+	})
 	// two workers, one or two operations, all orderings of worker steps around a fixed
 	// producer/collector pattern
 	for _, ops := range []string{"v1", "v1,v2", "v1,e2,v3"} {
@@ -808,6 +858,64 @@ func c19Gen(g *hx.Gen) {
 		}
 		g.Casef("pf %d %d %d %s %s %s", t, g.Pick(0, 0, 1, 2, 5), g.Pick(1, 1, 2, 4), randOps(g, nops, g.Chance(0.3)),
 			hx.B(g.Chance(0.9)), randSched(g, letters, weights, g.Range(0, 4*(t+nops)+4)))
+	}
+	// several producers and collectors: shuffled complete schedules (every actor gets the
+	// steps it needs, in a random order) and random schedules, with and without Stop
+	npg := g.Scale(3000, 50000)
+	for k := 0; k < npg && !g.Done(); k++ {
+		t := g.Pick(1, 2, 2, 3)
+		nprod := g.Pick(1, 2, 2, 3)
+		ncoll := g.Pick(1, 2, 2, 3)
+		var parts []string
+		total := 0
+		letters := []byte{}
+		counts := []int{}
+		weights := []int{}
+		special := g.Chance(0.3)
+		for pi := 0; pi < nprod; pi++ {
+			n := g.Pick(0, 1, 1, 2, 3)
+			if pi == 0 && g.Chance(0.5) {
+				n = g.Pick(0, 1, 2, t+1)
+			}
+			total += n
+			parts = append(parts, randOps(g, n, special))
+			letters = append(letters, byte('p'+pi))
+			c := n
+			if pi == 0 {
+				c++
+			}
+			counts = append(counts, c)
+			weights = append(weights, 3)
+		}
+		for ci := 0; ci < ncoll; ci++ {
+			letters = append(letters, byte('c'+ci))
+			counts = append(counts, g.Range(1, total+1))
+			weights = append(weights, 3)
+		}
+		for i := 0; i < t; i++ {
+			letters = append(letters, byte('0'+i))
+			counts = append(counts, g.Range(2, total+2))
+			weights = append(weights, 3)
+		}
+		letters = append(letters, 'w')
+		counts = append(counts, 1)
+		weights = append(weights, 1)
+		if g.Chance(0.15) {
+			letters = append(letters, 's')
+			counts = append(counts, 1)
+			weights = append(weights, 1)
+		}
+		var sched string
+		if g.Chance(0.5) {
+			sched = shuffleMultiset(g, letters, counts)
+		} else {
+			sched = randSched(g, letters, weights, g.Range(0, 4*(t+total)+4))
+		}
+		if sched == "" {
+			sched = "-"
+		}
+		g.Casef("pg %d %d %d %s %d %s %s", t, g.Pick(0, 0, 1, 2, 5), g.Pick(1, 1, 2, 4), strings.Join(parts, ";"),
+			ncoll, hx.B(g.Chance(0.9)), sched)
 	}
 	// all flag combinations, every kind of call (sequential and interleaved histories)
 	np := g.Scale(3000, 40000)
